@@ -78,6 +78,8 @@ def block_parts(ex, block, n):
 
 
 def py_block_parts(block, n):
+    if isinstance(block, dict):          # effective C block
+        return block['rb'], block['re'], block['cb'], block['ce'], block['triu']
     if block is None or block == 0:
         return 0, n, 0, n, True
     rb, re = block[0]
@@ -91,7 +93,7 @@ def py_pairs(block, n):
     rb, re, cb, ce, triu = py_block_parts(block, n)
     out = []
     for r in range(rb, re):
-        for c in range(cb, ce if n is None else min(ce, n)):
+        for c in range(cb, ce if isinstance(block, dict) else min(ce, n)):
             if (not triu) or c > r:
                 out.append((r, c))
     return out
@@ -248,10 +250,8 @@ def _decodable(ex, st, block, nr, nc):
 def _py_effblock(ex, st, block, nr, nc):
     f = _block_fields(ex, st, block)
     if f is None:
-        return ((0, nr), (0, nc), False)
-    re = f['re'] or nr
-    ce = f['ce'] or nc
-    return ((f['rb'], re), (f['cb'], ce)) if f['triu'] else ((f['rb'], re), (f['cb'], ce), False)
+        return dict(rb=0, re=nr, cb=0, ce=nc, triu=False)
+    return dict(rb=f['rb'], re=f['re'] or nr, cb=f['cb'], ce=f['ce'] or nc, triu=bool(f['triu']))
 
 
 def _py_decodable(ex, st, block, nr, nc):
